@@ -192,6 +192,23 @@ P = {
         ref="5/C16"),
 }
 
+# later growth (liveness forms, call histories in the conformance flows), appended to the texts above
+EXTRA = {
+    "C03": " The temporal form (Termination: trimming always ends, under weak fairness) is checked by TLC for every order-2 mask x threshold.",
+    "C10": " The temporal form (Termination = <>Done under weak fairness) is checked by TLC next to the safety form (ScanAdvances, TickBound).",
+    "C17": " The estimation machine's Termination (<> final phase, weak fairness) is checked by TLC on the enumerated arc subsets.",
+    "C08": " Replayed calls of one worker share one accessor object per graph and half of them follow a repair of the same strand with the "
+           "other has_indel setting; the scope includes a self-loop graph with late-surfacing errors and walks with two spaced edits.",
+    "C19": " Half of the recorded histories are uninterrupted trimming loops (round numbers passed, nothing else touches the shared objects), "
+           "a third start from arbitrary order-3 arc subsets with dead ends, and half use caller-written latter maps.",
+    "C11": " User-defined filters include one returning numpy.bool_ and one derived from LocalBioFilter; masks are bool, 0/1 and weighted ints.",
+    "C20": " Workspaces include arbitrary arc subsets with dead ends and defaultdict latter maps; seeds include 0.",
+    "C12": " Foreign symbols are also rendered as line feed, blank, tab, lower case, NUL and full-width letters.",
+    "C05": " Decode calls draw the type of bit_length and of the start vertex (Python int, numpy signed / unsigned) from the case.",
+}
+for _k, _v in EXTRA.items():
+    P[_k]["text"] += _v
+
 NOT_YET = "check not built yet in this round (work in progress; see DESIGN.md section 5 for the planned procedure)"
 
 
